@@ -41,6 +41,25 @@ CLAIMED["C05"] = dict(
     technique="runtime monitoring: GC-stress hook + heap-walk invariant hook + AddressSanitizer + schedule-differential outcomes",
 )
 
+CLAIMED["C12"] = dict(
+    category="translation_validation",
+    text="Each generated program is run from source and from its serialised bytecode (same VM, fresh VM with its imports "
+         "loaded) and the canonical values are compared; truncations at sampled offsets, renamed module references and a "
+         "VM that never loaded the imports must produce an error, never a panic or a different value.",
+    design_ref="DESIGN.md §4 C12",
+    note="serde_json encodings only (compact/pretty, debug info on/off); other corruptions are outside the property. "
+         "F26 (compile_to_bytecode rejects what run_expr accepts) listed; F25 fixed.",
+    technique="runtime monitoring: differential execution source vs bytecode plus fault injection on the serialised form, panic/crash monitor",
+)
+CLAIMED["C16"] = dict(
+    category="exploration",
+    text="Byte-for-byte comparison of value, type text and rendered diagnostics of the same sources in five contexts "
+         "(two fresh VMs, long-lived VM in order and permuted, separate process) over batches of well-typed and ill-typed programs.",
+    design_ref="DESIGN.md §4 C16",
+    note="Entropy varied: process (ASLR, hash seeds), VM history, order. Compiler panics compare by panic site only. F27 listed.",
+    technique="runtime monitoring: replay of identical inputs in varied contexts with a byte-equality oracle",
+)
+
 NOT_YET = "check not built yet in this session (work in progress; see DESIGN.md for the planned monitor)"
 
 def main():
